@@ -9,7 +9,7 @@ import Model.Fmt.ReaderLimit
 /-
 C02 driver.
 
-case <id> kind=r fn=<hex> text=<hex> init=<hexlist k,v,k,v…> haspre=0|1 pre=<hex> nums=<tbl> tidy=<tbl> uni=<tbl> tag=…
+case <id> kind=r fn=<hex> text=<hex> init=<hexlist k,v,k,v…> haspre=0|1 prek=<n|-1> pre=<hex> nums=<tbl> tidy=<tbl> uni=<tbl> tag=…
 case <id> kind=f paths=<hexlist> stdin=0|1 labels=0|1 fsn=<hexlist> fsc=<hexlist> in=<hex> nums=… tidy=… uni=… tag=…
   nums : field:atoi:atof,…    atoi ∈ i<dec> | s | r | o<hex>     atof ∈ f<16 hex> | s | r | o<hex>
   tidy : bits:unit:tidybits:tidyunit,…
@@ -163,6 +163,20 @@ def errField (open_ ioErr : Option Bytes) : String :=
   | none, some b => if b.isEmpty then "00empty" else b.toHex
   | none, none => "-"
 
+/-- `k` successive `Scan`s (stopping early when one returns false) -/
+def scanK (O : Oracles) : Nat → Reader → Reader
+  | 0, r => r
+  | k + 1, r =>
+    let (r', ok) := r.scan O
+    if ok then scanK O k r' else r'
+
+/-- specification side: the length of the shortest prefix of `ls` whose lines yield at least `k`
+records (all of `ls` if there are fewer) -/
+def firstPrefixWith (O : Oracles) (fn : Bytes) (ls : List Bytes) (k : Nat) : Nat :=
+  if k == 0 then 0 else
+  ((List.range (ls.length + 1)).find? fun n =>
+    (Spec.Format.readFrom O (Spec.Format.displayName fn) [] [] 1 (ls.take n)).1.length ≥ k).getD ls.length
+
 def pairUp : List Bytes → List (Bytes × Bytes)
   | k :: v :: rest => (k, v) :: pairUp rest
   | _ => []
@@ -174,9 +188,15 @@ def handleReader (l : Line) (O : Oracles) : IO Unit := do
   let hasPre := l.getD "haspre" "0" == "1"
   let pre := (l.bytes? "pre").getD []
   let preFn := Bytes.ofString "pre"
-  -- a reused reader has read `pre` to the end before it is Reset
+  let preK : Option Nat := (l.get? "prek").bind String.toNat?   -- none: pre is drained ("-1")
+  -- a reused reader has taken `prek` records of `pre` (or all of it) before it is Reset: run the
+  -- queue model that far; the state that matters is the reader state after the lines consumed
   let stBefore (P : Oracles) : RState :=
-    if hasPre then finalState P (RState.zero.reset preFn []) (splitLinesLim pre).1 else RState.zero
+    if hasPre then
+      match preK with
+      | none => finalState P (RState.zero.reset preFn []) (splitLinesLim pre).1
+      | some k => (scanK P k { (Reader.new pre preFn) with lines := (splitLinesLim pre).1 }).st
+    else RState.zero
   let st0 := (stBefore O).reset fn init
   let lim := splitLinesLim text
   let (recs, r) := drain O { st := st0, lines := lim.1, q := [], qPos := 0 } #[]
@@ -193,11 +213,17 @@ def handleReader (l : Line) (O : Oracles) : IO Unit := do
   -- the specification is judged with the CLOSED number/unit functions (C03/C04 models), not with
   -- the answers the harness collected from the code under test
   let SO := closedOracles O.uc
-  let unitsBefore := if hasPre then (Spec.Format.read SO preFn [] [] pre).2 else []
+  -- unit metadata known before: that of the lines of `pre` read so far = the shortest prefix of
+  -- its lines that yields at least `prek` records (all lines if it is drained)
+  let preLines := (Spec.Format.linesLimited pre).1
+  let consumed : Nat := match preK with
+    | none => preLines.length
+    | some k => firstPrefixWith SO preFn preLines k
+  let unitsBefore := if hasPre then (Spec.Format.readFrom SO (Spec.Format.displayName preFn) [] [] 1 (preLines.take consumed)).2 else []
   let (srecs, sunits, serr) := Spec.Format.readLimited SO fn labels unitsBefore text
   for rec in srecs do
     IO.println s!"spec {l.id} {showSRec rec}"
-  IO.println s!"spec {l.id} end n={srecs.length} failed={errField none serr} units={showUnits sunits} clone=ok again=0"
+  IO.println s!"spec {l.id} end n={srecs.length} failed={errField none serr} units={showUnits sunits} clone=ok again=0 pre0=noresult"
 
 /-- N4: the label generated for an occurrence of a duplicated unlabelled path `q` (`q#n`) is also
 the label of another entry (a path literally named `q#n`, or a user label `q#n=…`). -/
